@@ -18,7 +18,7 @@ import (
 // mergeStats records what the reference merge did (class labels, non-triviality).
 type mergeStats struct {
 	leafNew, leafSame, leafChanged int
-	llReplaced, llNew              int
+	llReplaced, llNew, llEmptied   int
 	sharedEntries, newEntries      int
 	sharedEntryLeafDiffers         int
 	untouchedLeaves                int
@@ -56,6 +56,15 @@ func mergeJSONInto(e, j *model.Node, inShared bool, st *mergeStats) {
 			e.Leaf[f.Name] = jv
 		case model.FLeafList:
 			jl := j.LL[f.Name]
+			if len(jl) == 0 && j.EmptyLL[f.Name] {
+				// mentioned with no members: the leaf-list is replaced by nothing
+				if len(e.LL[f.Name]) > 0 {
+					st.llReplaced++
+					st.llEmptied++
+				}
+				delete(e.LL, f.Name)
+				continue
+			}
 			if len(jl) == 0 {
 				continue
 			}
@@ -328,6 +337,10 @@ func (g *c31gen) mutate(n *model.Node, isEntry bool) {
 					delete(n.LL, f.Name)
 				case r < 80:
 					n.LL[f.Name] = g.ll(f)
+				case r < 90:
+					// the document mentions the leaf-list as []
+					delete(n.LL, f.Name)
+					n.EmptyLL[f.Name] = true
 				}
 			} else if g.pct(f.Name+"+") < 8 {
 				n.LL[f.Name] = g.ll(f)
@@ -430,15 +443,15 @@ func TestC31(t *testing.T) {
 		} else {
 			j = e.Clone()
 			g.mutate(j, false)
-			j.Normalize()
+			j.NormalizeDoc()
 		}
 		guarded := guardLists(j, e)
 		if v.Wrapper && rec.Active(F63) && rapid.IntRange(0, 9).Draw(rt, "avoidF63") < 8 {
 			sharedUnionKeyEntries(e, j, true, false) // lower the weight of the open finding's trigger region
 		}
-		j.Normalize()
+		j.NormalizeDoc()
 
-		jo := model.JSONOpts{Prefix: rapid.Bool().Draw(rt, "prefix"), AllAlts: rapid.Bool().Draw(rt, "allalts")}
+		jo := model.JSONOpts{Prefix: rapid.Bool().Draw(rt, "prefix"), AllAlts: rapid.Bool().Draw(rt, "allalts"), EmptyArrays: true}
 		clean := model.RenderJSON(j, jo)
 		docAny, err := decodeJSON(clean)
 		if err != nil {
@@ -486,6 +499,7 @@ func TestC31(t *testing.T) {
 		add(st.leafChanged > 0, "merge:leaf-overwritten")
 		add(st.leafNew > 0, "merge:leaf-added")
 		add(st.llReplaced > 0, "merge:leaf-list-replaced")
+		add(st.llEmptied > 0, "merge:leaf-list-emptied")
 		add(st.llNew > 0, "merge:leaf-list-added")
 		add(st.untouchedLeaves > 0, "merge:untouched-leaves")
 		add(st.ordNew > 0, "merge:ordered-list-into-empty")
